@@ -14,7 +14,7 @@ from . import common
 ID = "C05"
 NEEDS_MODEL = True
 LEVEL = "exploration"
-N = {"quick": 480, "thorough": 16000}
+N = {"quick": 800, "thorough": 16000}
 
 
 def renumber(text):
